@@ -308,6 +308,35 @@ def meek_rules(rep, prog):
             nx = il["next"][flag]
             okm = is_const(il["init"].get(flag), False) and only_raised(nx) and nx != muf and wl["next"].get(flag) == ("after", li_, flag)
             why = "flag is updated as %s (start of pass: %s)" % (fmt(nx)[:80], fmt(il["init"].get(flag, ("const", None))))
+            # ... and it *is* raised wherever an edge is oriented: the value of the flag on the path of every orienting store
+            if okm:
+                def under(t, lits_):
+                    while t[0] == "phi":
+                        cl = literals([(t[1], True)])
+                        if all((c_, True) in lits_ for c_, pl_ in cl if pl_) and all((c_, False) in lits_ for c_, pl_ in cl if not pl_):
+                            t = t[2]
+                        elif len(cl) == 1 and (cl[0][0], not cl[0][1]) in lits_:
+                            t = t[3]
+                        elif t[1][0] == "bool" and t[1][1] == "or" and all((x_, False) in lits_ for x_ in t[1][2]):
+                            t = t[3]
+                        elif t[1][0] == "bool" and t[1][1] == "or" and any((x_, True) in lits_ for x_ in t[1][2]):
+                            t = t[2]
+                        else:
+                            return None
+                    return t
+                for st_ in [s_ for s_ in stores if li_ in s_.loops and is_const(s_.value, 0)]:
+                    lits_ = literals(st_.path)
+                    v_ = under(nx, lits_)
+                    raised = v_ is not None and (is_const(v_, True) or (v_[0] == "bool" and v_[1] == "or" and any(is_const(x_, True) or (x_, True) in lits_ for x_ in v_[2])))
+                    if v_ is not None and not raised and (v_ == muf or is_const(v_, False)):
+                        flag_missed = st_
+                        break
+                else:
+                    flag_missed = None
+                if flag_missed is not None:
+                    rep.bad("ORIENT.flag", fwhere(f, flag_missed.node), "this branch orients an edge (%s = 0) without raising the repeat-until-stable flag: when only such edges are oriented in a pass "
+                            "the loop stops although the new orientation may force further ones" % fmt(("sub", ("param", "P"), flag_missed.idx))[:40])
+                    okm, why = None, "reported"
         def readable(t):
             # built from the flag itself, boolean constants, calls of the Meek rules and and / or / not / if-else only: its meaning is fully read
             if t == muf or (is_const(t) and isinstance(t[1], bool)):
@@ -319,7 +348,9 @@ def meek_rules(rep, prog):
             if t[0] == "unop" and t[1] in ("not", "truth"):
                 return readable(t[2])
             return t[0] == "call" and t[1] in RULES
-        if not okm and why == "flag / pass loop not identified":
+        if okm is None:
+            pass
+        elif not okm and why == "flag / pass loop not identified":
             rep.unk("ORIENT.flag", fwhere(f), "how the loop knows that a pass oriented something is not written as a boolean flag: not read")
         elif not okm and flag is not None and len(inner) == 1 and is_const(il["init"].get(flag), False) and readable(nx) and not only_raised(nx) and nx != muf:
             # read completely, and what it says is wrong: the flag is recomputed per edge from the rules alone, so an edge that is not orientable
